@@ -60,6 +60,12 @@ def _diff_key(sub, d, tree):
     return [sub, d["leaf"], d["kind"]]
 
 
+def _set_under_vector(tree):
+    if tree["t"] == "vector" and V.contains(tree["of"], "set"):
+        return True
+    return any(_set_under_vector(c) for c in V.children(tree))
+
+
 def _map_lookup_problems(tree, obj, pv, out, top=True):
     """'maps come back as ordered maps': every decoded key must find its own value again (that is also what
     Mapping.items()/values() and re-serialisation of the decoded map rely on)"""
@@ -76,7 +82,7 @@ def _map_lookup_problems(tree, obj, pv, out, top=True):
         if V.contains(tree["k"], "set"):
             # indexed under the sender's element order, looked up under the re-sorted one (any protocol version;
             # the historical key name is kept)
-            feat = ["set-in-key", "v3-format"]
+            feat = ["set-in-key", "under-vector" if _set_under_vector(tree["k"]) else "v3-format"]
         elif top and pv < 3 and has_coll:
             feat = ["collection-key", "top-level-pv<3"]
         else:
